@@ -8,3 +8,9 @@ import Blackbird.Props.C18Lex
 #print axioms Blackbird.C18_comment_is_skipped
 #print axioms Blackbird.C18_comment_text_irrelevant
 #print axioms Blackbird.C18_comment_line_is_blank
+#print axioms Blackbird.C18_spaces_are_skipped
+#print axioms Blackbird.C18_spacing_irrelevant
+#print axioms Blackbird.C18_four_spaces_are_a_tab
+#print axioms Blackbird.C18_line_end_is_one_newline
+#print axioms Blackbird.C18_line_end_style_irrelevant
+#print axioms Blackbird.C18_tab_or_four_spaces_one_tab
